@@ -267,10 +267,14 @@ def check(prop, tier="quick", seed=0, repo="/repo", jobs=None, only=None, verbos
             drift.append((ob, labels, "localises a top-level failure"))
         else:
             drift.append((ob, labels, "top-level obligations hold"))
+    weak_failures = []
     for v in list(violations):
         if v and v[0] == "checker-error":
             checker_errors.append((v[1], v[2]))
-    violations = [v for v in violations if v and v[0] != "checker-error"]
+        elif v and v[0] == "undecided":
+            weak_failures.append((v[1], v[2]))
+            print("UNDECIDED obligation=%s reason=%s stand-in=bounded(%s)" % (v[1].id, v[2][0], v[2][1]))
+    violations = [v for v in violations if v and v[0] not in ("checker-error", "undecided")]
 
     # --- numeric cross-check of everything that was proved: a proved obligation that fails on the real numpy
     #     means the model does not represent the code (checker error, not a verdict)
@@ -396,7 +400,7 @@ def check(prop, tier="quick", seed=0, repo="/repo", jobs=None, only=None, verbos
 
     wall = time.time() - t0
     n_obl = n_top + n_internal
-    bounded_standin = [o.id for o, _, _ in undecided]
+    bounded_standin = [o.id for o, _, _ in undecided] + [o.id for o, _ in weak_failures]
     samples = []
     picked = [r_ for r_ in ob_records if r_["tier"] != "canary"][:2] + [r_ for r_ in ob_records if r_["tier"] == "canary"][:1]
     for rec in picked:
@@ -454,7 +458,7 @@ def check(prop, tier="quick", seed=0, repo="/repo", jobs=None, only=None, verbos
     with open(evidence_path, "w") as f:
         json.dump(evidence, f, indent=1, sort_keys=False)
     print("%s tier=%s: %d obligations (%d top-level, %d internal), %d discharged, %d canaries refuted, %d undecided, %d violations, %.1fs"
-          % (prop, tier, n_obl, n_top, n_internal, discharged, canary_ok, len(undecided), len(violations), wall))
+          % (prop, tier, n_obl, n_top, n_internal, discharged, canary_ok, len(undecided) + len(weak_failures), len(violations), wall))
     if checker_errors:
         return 3
     if violations:
@@ -546,6 +550,11 @@ def _report_failure(prop, tier, seed, repo, ob, res, failed, labels, replay_dir,
         # the only failure is an exception during the symbolic run (inside the shim, or an attribute/method the shim lacks) that the
         # real code does not reproduce at any sampled input: the model is at fault, not the repository
         return ("checker-error", ob, ["exception during symbolic execution not reproduced on the real code: %s" % failed[0].get("detail", "")])
+    if found is None and failed and all(g.get("path_feasible") == "unknown" and not g.get("model") for g in failed):
+        # every failing goal sits on a control path whose feasibility no solver could establish, there is no counter-model and no
+        # sampled input reproduces the failure on the real code: that is not evidence of a violation
+        return ("undecided", ob, ["goals fail only on control paths of unknown feasibility, without counter-model; %d points searched on the real code, none fails"
+                                  % (budget,), ", ".join(labels)[:200]])
     path = _write_replay(replay_dir, prop, ob, tier, seed, found, verifier_output, found is not None)
     lab = labels if found is None else sorted({g["label"] for g in found["goals"]} | set(labels))
     kf = finding_for(known, prop, ob.id, labels)
